@@ -330,6 +330,38 @@ static Instance inst(const std::string &name, int depth, Args... args) {
 	return bfs_instance<H>(name, o, args...);
 }
 
+// Element types whose == is not bytewise equality: signed zeros and NaN, a key whose equality is coarser than its
+// bytes, a struct with padding.  vector's == / != must agree with the element-wise comparison of std::vector for
+// every pair of sequences up to length 2 over the value sets (and swap/copy must keep comparing the same).
+struct CoarseKey { int id; int tag; bool operator==(const CoarseKey &o) const { return id == o.id; } bool operator!=(const CoarseKey &o) const { return id != o.id; } };
+struct Padded { char c; long long v; bool operator==(const Padded &o) const { return c == o.c && v == o.v; } bool operator!=(const Padded &o) const { return !(*this == o); } };
+template<class E, class Mk> static void equality_pairs(InstResult &r, const char *what, size_t nvals, Mk mk) {
+	std::vector<std::vector<size_t>> seqs = {{}};
+	for(size_t a = 0; a < nvals; a++) { seqs.push_back({a}); for(size_t b = 0; b < nvals; b++) seqs.push_back({a, b}); }
+	for(auto &x : seqs) for(auto &y : seqs) {
+		r.evaluations++; r.distinct++;
+		frg::vector<E, TrackAlloc> fx{TrackAlloc{}}, fy{TrackAlloc{}}; std::vector<E> sx, sy;
+		for(size_t i : x) { fx.push(mk(i, 0)); sx.push_back(mk(i, 0)); }
+		for(size_t i : y) { fy.push(mk(i, 1)); sy.push_back(mk(i, 1)); }
+		bool want = sx == sy;
+		if((fx == fy) != want || (fx != fy) == want) { r.add_violation({"C13", std::string("vector:operator==:") + what, std::string("vector<") + what + "> == disagrees with the element-wise comparison of the reference sequences"}, what); return; }
+	}
+}
+static InstResult vector_equality() {
+	InstResult r; r.name = "vector-equality-nonbytewise"; r.complete = true;
+	world_reset();
+	const double dv[] = {0.0, -0.0, __builtin_nan(""), 1.5};
+	equality_pairs<double>(r, "double", 4, [&](size_t i, int) { return dv[i]; });
+	const float fv[] = {0.0f, -0.0f, __builtin_nanf(""), 2.5f};
+	equality_pairs<float>(r, "float", 4, [&](size_t i, int) { return fv[i]; });
+	equality_pairs<CoarseKey>(r, "key-with-coarser-equality", 3, [&](size_t i, int side) { return CoarseKey{(int)i, side * 17}; });
+	equality_pairs<Padded>(r, "padded-struct", 3, [&](size_t i, int side) { Padded p; memset(&p, side ? 0xEE : 0x11, sizeof p); p.c = (char)i; p.v = (long long)i * 3; return p; });
+	try { raise_pending(); world_check_empty("vector-equality"); } catch(const Violation &v) { r.add_violation(v, "vector-equality"); }
+	r.samples.push_back("vector<double|float|coarse key|padded struct>: == and != for every pair of sequences of length <= 2 over 3-4 values incl. +0/-0/NaN, differing tags, differing padding bytes");
+	r.states = r.distinct; r.transitions = r.evaluations;
+	return r;
+}
+
 static std::vector<Instance> mk(const std::string &tier) {
 	bool th = tier == "thorough";
 	std::vector<Instance> v;
@@ -343,6 +375,9 @@ static std::vector<Instance> mk(const std::string &tier) {
 	v.push_back(inst<DynHarness<Tracked>>("dyn_array-tracked", th ? 5 : 4));
 	v.push_back(inst<StackHarness<Tracked>>("stack-tracked", th ? 16 : 10, th ? 8 : 7));
 	v.push_back(inst<ListHarness<Tracked>>("list-tracked", th ? 14 : 9, th ? 6 : 4));
+	{ Instance e; e.name = "vector-equality-nonbytewise"; e.run = [](const std::vector<CrashInfo> &) { return vector_equality(); };
+	  e.replay = [](const std::string &) { InstResult r = vector_equality(); for(auto &x : r.violations) printf("REPLAY-VIOLATION property=%s sig=%s: %s\n", x.prop.c_str(), x.sig.c_str(), x.msg.c_str()); return (int)r.violations.size(); };
+	  v.push_back(e); }
 	return v;
 }
 int main(int argc, char **argv) { return harness_main(argc, argv, mk); }
